@@ -484,6 +484,11 @@ func (p *twkbParser) nextPolygon() (Polygon, error) {
 		ls := NewLineString(NewSequence(coords, p.ctype))
 		rings = append(rings, ls)
 	}
+	if len(rings) == 0 {
+		// NewPolygon(nil) would be XY. Inside a MultiPolygon that would
+		// strip Z and M from every other member.
+		return Polygon{}.ForceCoordinatesType(p.ctype), nil
+	}
 	return NewPolygon(rings), nil
 }
 
